@@ -246,6 +246,8 @@ pub fn quiet_panics() {
                 let f = l.file();
                 // keep repo-relative path
                 let f = f.rsplit("/repo/").next().unwrap_or(f);
+                // a scratch copy of the repository lives elsewhere: cut at the crate directory
+                let f = ["biscuit-auth/", "biscuit-parser/", "biscuit-quote/", "biscuit-capi/"].iter().filter_map(|c| f.find(c).map(|i| &f[i..])).max_by_key(|x| x.len()).unwrap_or(f);
                 format!("{}:{}", f, l.line())
             })
             .unwrap_or_default();
